@@ -146,6 +146,16 @@ func (bw *BatchedWriter) Enqueue(object BatchWriteObject) {
 
 	// queue object
 	bw.scheduledCount.Add(1)
+
+	// abort if the BatchWriter has been stopped in the meantime, because the writer might already be gone.
+	// If it is still running, the scheduledCount keeps it alive until the object was picked up.
+	if !bw.running.Load() {
+		object.ResetBatchWriteScheduled()
+		bw.scheduledCount.Add(-1)
+
+		return
+	}
+
 	bw.batchQueue <- object
 }
 
